@@ -707,6 +707,8 @@ func checkC03(c *Ctx) {
 	checkC03PeekPop(c)
 	checkC03EscapeResets(c)
 	checkRound5Small(c, "C03")
+	// the pending-prefix test compares how much was read with how long the bound sequence is: both in bytes
+	unitRule(c, "C03.units", []string{"(*keymap.Engine).matchBind"}, 0)
 	checkReadersAgreeOnOrder(c, "C03.readers-agree-on-order")
 	r.Rule("C03.popkey-owner", "K2", "core.PopKey (which leaves mustWait untouched) is called only by the dispatcher; any other consumer drops keys with PopForce", 1)
 	if pk := p.Func("core.PopKey"); pk != nil {
